@@ -49,6 +49,12 @@ def resolved : Val → Val
   | stringer (ptr v) _ => v
   | v => v
 
+/-- what reflection sees: pointers followed and a named type's methods forgotten -/
+def reflected (v : Val) : Val :=
+  match v.resolved with
+  | stringer i _ => i
+  | w => w
+
 /-- reflect kind classes used by the code -/
 inductive Kind
   | invalid | bool | int | uint | float | string | slice | array | map | struct | ptr | func | other
@@ -74,6 +80,13 @@ def rkind : Val → Kind
   | v => kind v
 
 def isString (v : Val) : Bool := v.rkind = .string
+/-- `v.Interface().(fmt.Stringer)` succeeds (`*Value` and `*tagCycleValue` have a `String` method) -/
+def isStringer : Val → Bool
+  | stringer .. => true
+  | ptr (stringer ..) => true
+  | boxed .. => true
+  | cycleval .. => true
+  | _ => false
 def isBool (v : Val) : Bool := v.rkind = .bool
 def isFloat (v : Val) : Bool := v.rkind = .float
 def isInteger (v : Val) : Bool := v.rkind = .int || v.rkind = .uint
@@ -112,13 +125,13 @@ def fmtFixedExact (m : Nat) (e : Int) (prec : Nat) : Bytes :=
 
 /-- `strconv.FormatFloat(f, 'f', prec, 64)` / `fmt.Sprintf("%.{prec}f", f)` -/
 def fmtFloatPrec (f : Float) (prec : Nat) : Bytes :=
-  if f.isNaN then b "NaN"
+  if f.isNaN then b!"NaN"
   else
     let bits := f.toBits
     let neg := bits >>> 63 != 0
     let ex := ((bits >>> 52) &&& 0x7ff).toNat
     let man := (bits &&& 0xfffffffffffff).toNat
-    if ex = 0x7ff then (if neg then b "-Inf" else b "+Inf")
+    if ex = 0x7ff then (if neg then b!"-Inf" else b!"+Inf")
     else
       let (m, e) : Nat × Int := if ex = 0 then (man, -1074) else (man + 2 ^ 52, (ex : Int) - 1075)
       (if neg then [0x2d] else []) ++ fmtFixedExact m e prec
@@ -230,16 +243,16 @@ def toStr : Nat → Val → Bytes
       | int i => fmtInt i
       | uint u => fmtUInt u
       | float f => fmtFloat f
-      | bool true => b "True"
-      | bool false => b "False"
-      | list ty _ => b "<" ++ ty ++ b " Value>"
-      | arr ty _ => b "<" ++ ty ++ b " Value>"
-      | smap ty _ => b "<" ++ ty ++ b " Value>"
-      | imap ty _ => b "<" ++ ty ++ b " Value>"
-      | struct n _ _ => b "<" ++ n ++ b " Value>"
-      | func _ => b "<func Value>"
-      | closure .. => b "<func Value>"
-      | blockinfo .. => b "<pongo2.tagBlockInformation Value>"
+      | bool true => b!"True"
+      | bool false => b!"False"
+      | list ty _ => b!"<" ++ ty ++ b!" Value>"
+      | arr ty _ => b!"<" ++ ty ++ b!" Value>"
+      | smap ty _ => b!"<" ++ ty ++ b!" Value>"
+      | imap ty _ => b!"<" ++ ty ++ b!" Value>"
+      | struct n _ _ => b!"<" ++ n ++ b!" Value>"
+      | func _ => b!"<func Value>"
+      | closure .. => b!"<func Value>"
+      | blockinfo .. => b!"<pongo2.tagBlockInformation Value>"
       | _ => []
 
 def toS (v : Val) : Bytes := toStr 8 v
